@@ -133,3 +133,94 @@ Print Assumptions own_republication_has_no_effect.
 Theorem cache_size_is_64 : cache_cap = 64 /\ announce_announceCacheSize = 64%Z.
 Proof. exact cache_size_is_64_lemma. Qed.
 Print Assumptions cache_size_is_64.
+
+(* ------------------------------------------------------------------------------------ *)
+(* Composition with C10: from the bytes a sender puts on the topic to the consumer of a
+   receiver.  [watch_bytes] = Receiver.watch on a raw payload: C10's decoder, then the
+   bridge [msg_to_pmsg] (Message.GetAddrs over the address byte strings, peer.Decode of the
+   OrigPeer text), then C09's [watch_decode].  The abstractions of CIDs, peer IDs and
+   addresses to C09's numbers are arbitrary functions; the premises are the two round
+   trips the real libraries provide (peer ID text, multiaddr bytes).                     *)
+From Lib Require Import Bytes Cid.
+From Model Require Import C10_AnnounceMsg Compose_C10_C09.
+From Proofs Require Import Compose_C10_C09.
+Open Scope N_scope.
+
+(* An announcement (cid, addrs) published through p2psender by host `pub`, within the
+   encoder's caps: every receiver's watcher turns the wire bytes into exactly
+   (cid, pub, addrs), and on an open, drained receiver that announcement is delivered - with
+   the receiver's address filter applied - iff pub is allowed and the CID not recently seen. *)
+Theorem published_announce_is_delivered :
+  forall (cid_no : cid -> N) (peer_decode : bytes -> option N)
+         (addr_bytes : N -> bytes) (addr_parse : bytes -> aparse) (is_pub : N -> bool),
+  (forall i, addr_parse (addr_bytes i) = AOk i (is_pub i)) ->
+  forall scfg0 c ids data me pub,
+  cid_wf c = true -> p2p_wire scfg0 (direct_msg addr_bytes c ids) = Ok data ->
+  watch_bytes cid_no peer_decode addr_parse me pub data = Ok (Some (mk_ann cid_no is_pub c pub ids))
+  /\ forall cf f s, closed s = false -> out s = None ->
+     exists o s', arrival_op cid_no peer_decode addr_parse me f pub data = Some o
+       /\ seq_step cf s o = [(RNil, s')]
+       /\ (out s' = Some (mk_ann cid_no is_pub c pub (relay_ids is_pub cf ids))
+           <-> (allows f pub = true /\ memN (cid_no c) (lru s) = false)).
+Proof. exact published_direct_is_delivered. Qed.
+Print Assumptions published_announce_is_delivered.
+
+(* The same announcement handed to a relay receiver with WithResend and republished
+   (Direct -> republish, the relay's address filter applied): the wire bytes decode to
+   exactly C09's [republish] of what the relay delivered; another receiver attributes it to
+   the ORIGIN and delivers it iff the origin is allowed and the CID not recently seen. *)
+Theorem republished_announce_is_delivered :
+  forall (cid_no : cid -> N) (peer_text : N -> bytes) (peer_decode : bytes -> option N)
+         (addr_bytes : N -> bytes) (addr_parse : bytes -> aparse) (is_pub : N -> bool),
+  (forall p, p <> 0 -> peer_text p <> [] /\ peer_decode (peer_text p) = Some p) ->
+  (forall i, addr_parse (addr_bytes i) = AOk i (is_pub i)) ->
+  forall cR relay me origin c ids data,
+  cid_wf c = true -> origin <> 0 -> relay <> me ->
+  enc (republish_msg peer_text addr_bytes c origin (relay_ids is_pub cR ids)) = Ok data ->
+  (exists m, dec data = Ok (m, []) /\
+     msg_to_pmsg cid_no peer_decode addr_parse relay m
+     = Some (republish relay (filter_addrs cR (mk_ann cid_no is_pub c origin ids))))
+  /\ watch_bytes cid_no peer_decode addr_parse me relay data
+     = Ok (Some (mk_ann cid_no is_pub c origin (relay_ids is_pub cR ids)))
+  /\ forall cf f s, closed s = false -> out s = None ->
+     exists o s', arrival_op cid_no peer_decode addr_parse me f relay data = Some o
+       /\ seq_step cf s o = [(RNil, s')]
+       /\ (out s' = Some (mk_ann cid_no is_pub c origin (relay_ids is_pub cf (relay_ids is_pub cR ids)))
+           <-> (allows f origin = true /\ memN (cid_no c) (lru s) = false)).
+Proof. exact republished_is_delivered. Qed.
+Print Assumptions republished_announce_is_delivered.
+
+(* ... and the relay drops its own copy of that republication. *)
+Theorem own_republication_on_the_wire_is_dropped :
+  forall (cid_no : cid -> N) (peer_text : N -> bytes) (peer_decode : bytes -> option N)
+         (addr_bytes : N -> bytes) (addr_parse : bytes -> aparse) (is_pub : N -> bool),
+  (forall p, p <> 0 -> peer_text p <> [] /\ peer_decode (peer_text p) = Some p) ->
+  (forall i, addr_parse (addr_bytes i) = AOk i (is_pub i)) ->
+  forall cR relay origin c ids data f,
+  cid_wf c = true -> origin <> 0 ->
+  enc (republish_msg peer_text addr_bytes c origin (relay_ids is_pub cR ids)) = Ok data ->
+  arrival_op cid_no peer_decode addr_parse relay f relay data = None.
+Proof. exact own_republication_on_the_wire_dropped. Qed.
+Print Assumptions own_republication_on_the_wire_is_dropped.
+
+(* Anything else on the topic: the watcher never panics; bytes that do not decode, a message
+   with an address that does not parse, or with an OrigPeer that is not a peer ID amount to no
+   operation at all (state unchanged, nothing delivered), and the receiver's behaviour on a
+   sequence of payloads is the same with or without the dropped one (the watcher goes on). *)
+Theorem garbage_on_topic_is_dropped :
+  forall (cid_no : cid -> N) (peer_decode : bytes -> option N) (addr_parse : bytes -> aparse),
+  (forall host from data, is_panic (watch_bytes cid_no peer_decode addr_parse host from data) = false)
+  /\ (forall host f from data e, dec data = Err e ->
+        arrival_op cid_no peer_decode addr_parse host f from data = None)
+  /\ (forall host f from data m r, dec data = Ok (m, r) ->
+        get_addrs_parsed addr_parse (sl (m_addrs m)) = None ->
+        arrival_op cid_no peer_decode addr_parse host f from data = None)
+  /\ (forall host f from data m r, dec data = Ok (m, r) ->
+        m_orig m <> [] -> peer_decode (m_orig m) = None ->
+        arrival_op cid_no peer_decode addr_parse host f from data = None)
+  /\ (forall host f l1 g l2,
+        arrival_op cid_no peer_decode addr_parse host f (fst g) (snd g) = None ->
+        arrivals_ops cid_no peer_decode addr_parse host f (l1 ++ g :: l2)
+        = arrivals_ops cid_no peer_decode addr_parse host f (l1 ++ l2)).
+Proof. exact garbage_on_topic_is_dropped_lemma. Qed.
+Print Assumptions garbage_on_topic_is_dropped.
